@@ -47,6 +47,10 @@ def cases(tier, seed):
             s["par"] = 2
         s["seed"] = R.randrange(1 << 30)
         out.append(s)
+    for i in range(8 if tier == "quick" else 120):
+        s = gens.gen_pyramid(R, maxdepth=4, mindepth=2, kinds=("generic", "toast", "filtered"), sub_p=0.3)
+        s.update(profile=R.choice(["natural", "jitter", "slow_workers", "heavy_tail"]), par=R.choice([2, 3, 4]), seed=R.randrange(1 << 30), fail_at="pick")
+        out.append(s)
     for m in ("forkserver", "spawn"):
         for kind in (("generic", "toast") if tier == "quick" else ("generic", "toast", "generic", "toast")):
             out.append(dict(t="startmethod", method=m, kind=kind, depth=R.choice([2, 3]), par=R.choice([2, 4]), seed=R.randrange(1 << 30), profile="natural", apex=None))
@@ -97,9 +101,14 @@ def run_walk(spec, workdir, par, tag, ops):
     def mpath(p):
         return os.path.join(mdir, "%d_%d_%d" % tuple(p))
 
+    fail_at = tuple(spec["fail_at"]) if spec.get("fail_at") else None
+
     def cb(pos):
         p = (int(pos.n), int(pos.x), int(pos.y))
         evlog.ev("cb_start", pos=p)
+        if p == fail_at:
+            evlog.ev("cb_exc", pos=p)
+            raise RuntimeError("injected failure at %s" % (p,))
         for c in rq.children(p):
             if c in ops and not os.path.exists(mpath(c)):
                 evlog.ev("marker_missing", pos=p, child=c)
@@ -313,7 +322,28 @@ def run_case(spec, workdir):
     ops = rq.live_parents(depth, acc, apex)
     par = spec["par"]
     instr_mp.install(spec["profile"] if par > 1 else "natural", spec["seed"])
+    if spec.get("fail_at") == "pick":
+        cand = sorted(p for p in ops if p[0] > apex[0])
+        if not cand:
+            return dict(status="held", nontrivial=False, counters=dict(fault_walks_skipped=1))
+        spec = dict(spec, fail_at=list(cand[spec["seed"] % len(cand)]))
     outcome, info, recs, log = run_walk(spec, workdir, par, "main", ops)
+    if spec.get("fail_at"):
+        # the callback of one live parent fails: whatever the walk then does, "a tile's callback starts only after the callbacks
+        # of all its live non-leaf children have COMPLETED" - the failed tile never completed, so none of its ancestors may start
+        f = tuple(spec["fail_at"])
+        anc = set()
+        q = f
+        while q[0] > apex[0]:
+            q = rq.parent(q)
+            anc.add(q)
+        started = sorted({tuple(r["pos"]) for r in recs if r["k"] == "cb_start" and tuple(r["pos"]) in anc})
+        res = dict(counters=dict(fault_walks=1), nontrivial=bool(anc), sample=dict(spec={k: v for k, v in spec.items() if k != "accepted"}, outcome=outcome))
+        if outcome == "watchdog":
+            return dict(status="inconclusive", detail="watchdog")
+        if started:
+            res.update(status="violation", key="ancestor-started-although-its-child-failed", detail="callback of %s raised; callbacks nevertheless started for its ancestors %s" % (f, started[:4]))
+        return res
     counters = collections.Counter()
     counters["runs_profile_" + spec["profile"]] += 1
     counters["runs_k%d" % par] += 1
